@@ -76,6 +76,11 @@ def check_contract(T, label, build, pre, post, replay=None, strength=None, extra
             opts = item[3] if len(item) > 3 else {}
             # a case may name the subset of the preconditions it needs (fewer irrelevant variables)
             hy = (list(opts['pre']) + p.pc + p.defs + ax) if 'pre' in opts else base
+            from .diff import exp_terms_of, log_terms_of
+            gt = z3.And(goal, *extra) if extra else goal
+            et, lt = exp_terms_of(gt), log_terms_of(gt)
+            if et or lt:
+                hy = hy + exp_axioms(et) + log_axioms(lt)
             st, m = T.prove(f'{label}/{case}@p{k}', hy + list(extra), goal, strength=strength,
                             timeout_ms=timeout_ms)
             if st == 'failed':
